@@ -4,6 +4,7 @@ import (
 	"flag"
 	"fmt"
 	"sort"
+	"strconv"
 	"strings"
 
 	"github.com/EliCDavis/jbtf"
@@ -314,7 +315,7 @@ func (i *Instance) buildNodeGraphInstanceSchema(node nodes.Node, encoder *jbtf.E
 	}
 
 	sort.Slice(nodeInstance.Dependencies, func(i, j int) bool {
-		return strings.ToLower(nodeInstance.Dependencies[i].Name) < strings.ToLower(nodeInstance.Dependencies[j].Name)
+		return dependencyNameLess(nodeInstance.Dependencies[i].Name, nodeInstance.Dependencies[j].Name)
 	})
 
 	if param, ok := node.(CustomGraphSerialization); ok {
@@ -621,4 +622,25 @@ func BuildNodeTypeSchema(node nodes.Node) schema.NodeType {
 	}
 
 	return typeSchema
+}
+
+func dependencyNameLess(a, b string) bool {
+	aBase, aIndex, aArr := splitArrayDependencyName(a)
+	bBase, bIndex, bArr := splitArrayDependencyName(b)
+	if aArr && bArr && strings.EqualFold(aBase, bBase) {
+		return aIndex < bIndex
+	}
+	return strings.ToLower(a) < strings.ToLower(b)
+}
+
+func splitArrayDependencyName(name string) (string, int, bool) {
+	dot := strings.LastIndex(name, ".")
+	if dot == -1 {
+		return name, 0, false
+	}
+	index, err := strconv.Atoi(name[dot+1:])
+	if err != nil {
+		return name, 0, false
+	}
+	return name[:dot], index, true
 }
